@@ -13,6 +13,7 @@
 #include <hwloc.h>
 #include <hwloc/export.h>
 #include <hwloc/diff.h>
+#include <sys/stat.h>
 
 static char *slurp(const char *path, long *len) {
   FILE *f = fopen(path, "rb"); char *buf = NULL;
@@ -23,6 +24,30 @@ static char *slurp(const char *path, long *len) {
   if (fread(buf, 1, (size_t)*len, f) != (size_t)*len) *len = 0;
   buf[*len] = 0; fclose(f);
   return buf;
+}
+
+/* mode "fifo": the document is given by path through a FIFO fed by a child process (what `lstopo -i /dev/stdin` or a process
+ * substitution gives): the loaders cannot stat its size and read it in growing chunks */
+static pid_t fifo_feed(const char *path, char *fifo, size_t fsz) {
+  char *buf; long len = 0; pid_t pid; int fd; long off = 0;
+  snprintf(fifo, fsz, "%s.fifo.%d", path, (int)getpid());
+  unlink(fifo);
+  if (mkfifo(fifo, 0600) < 0) return -1;
+  pid = fork();
+  if (pid) return pid;
+  /* child: write the bytes and leave */
+  signal(SIGPIPE, SIG_IGN);
+  buf = slurp(path, &len);
+  fd = open(fifo, O_WRONLY);
+  while (fd >= 0 && buf && off < len) { ssize_t w = write(fd, buf + off, (size_t)(len - off)); if (w <= 0) break; off += w; }
+  _exit(0);
+}
+static void fifo_done(pid_t pid, const char *fifo) {
+  int st, fd;
+  if (pid <= 0) return;
+  /* a loader that failed early never opened the FIFO: unblock the writer */
+  fd = open(fifo, O_RDONLY | O_NONBLOCK); if (fd >= 0) { char b[4096]; while (read(fd, b, sizeof b) > 0) {} close(fd); }
+  kill(pid, SIGKILL); waitpid(pid, &st, 0); unlink(fifo);
 }
 
 static void print_all(hwloc_topology_t t) {
@@ -44,11 +69,12 @@ static void print_all(hwloc_topology_t t) {
 static void do_xmlload(char *p) {
   char *path = hwv_tok(&p), *mode = hwv_tok(&p); unsigned long fl = (unsigned long)hwv_tokl(&p);
   int keepall = (int)hwv_tokl(&p), pristine = (int)hwv_tokl(&p), after = (int)hwv_tokl(&p);
-  char *good = hwv_tok(&p); int two = 0;
+  char *good = hwv_tok(&p); int two = 0; char fifo[4200]; pid_t fpid = 0;
   hwloc_topology_t t = NULL; int r1 = -1, r2 = -2, err = 0, battery = 0, re_set = -2, re_load = -2, re_n = 0; char *buf = NULL; long len = 0;
   hwloc_topology_init(&t);
   errno = 0;
   if (mode && !strcmp(mode, "buffer")) { buf = slurp(path, &len); r1 = hwloc_topology_set_xmlbuffer(t, buf ? buf : "", (int)len + 1); err = errno; }
+  else if (mode && !strcmp(mode, "fifo")) { fpid = fifo_feed(path, fifo, sizeof fifo); r1 = hwloc_topology_set_xml(t, fifo); err = errno; }
   else { r1 = hwloc_topology_set_xml(t, path); err = errno; }
   if (!r1) {
     hwloc_topology_set_flags(t, fl);
@@ -56,6 +82,7 @@ static void do_xmlload(char *p) {
     errno = 0;
     r2 = hwloc_topology_load(t); err = errno;
   }
+  fifo_done(fpid, fifo);
   free(buf);
   out("{\"e\":\"xmlload\",\"path\":"); out_jstr(path); out(",\"mode\":\"%s\",\"flags\":%lu,\"keepall\":%d,\"pristine\":%d,\"after\":%d,\"set\":%d,\"load\":%d,\"errno\":\"%s\",\"topo\":",
       mode ? mode : "", fl, keepall, pristine, after, r1, r2, errname(err));
@@ -110,6 +137,7 @@ static void do_diffload(char *p) {
   hwloc_topology_diff_t diff = NULL, d; char *refname = NULL; int ret, err, n = 0; char *buf = NULL; long len = 0;
   errno = 0;
   if (mode && !strcmp(mode, "buffer")) { buf = slurp(path, &len); ret = hwloc_topology_diff_load_xmlbuffer(buf ? buf : "", (int)len + 1, &diff, &refname); err = errno; free(buf); }
+  else if (mode && !strcmp(mode, "fifo")) { char fifo[4200]; pid_t fpid = fifo_feed(path, fifo, sizeof fifo); ret = hwloc_topology_diff_load_xml(fifo, &diff, &refname); err = errno; fifo_done(fpid, fifo); }
   else { ret = hwloc_topology_diff_load_xml(path, &diff, &refname); err = errno; }
   if (!ret) { for (d = diff; d && n < 100000; d = d->generic.next) n++; hwloc_topology_diff_destroy(diff); free(refname); }
   out("{\"e\":\"diffload\",\"path\":"); out_jstr(path); out(",\"mode\":\"%s\",\"pristine\":%d,\"ret\":%d,\"errno\":\"%s\",\"n\":%d}", mode ? mode : "", pristine, ret, errname(err), n); out_end();
